@@ -7,9 +7,11 @@ Model: `PsyVerif/Model/Directives.lean`.
   (parallel, do, parallel do, teams distribute parallel do, loop, single(nowait), master, taskloop,
   dynamic task, taskwait, target, atomic, simd, declare target; acc parallel, kernels, data, loop,
   atomic, enter data, update, routine) as run by the PSyIR visitor, with the outcome
-  accept / GenerationError / IndexError.  MODE: the code WITH the fixes d0e6145, 053c279 (committed)
-  and `fixes/C10-collapse-rectangular`, `C10-omp-acc-mixing`, `C10-teams-simd-region-nesting`,
-  `C10-acc-standalone-placement` (candidates).
+  accept / GenerationError / IndexError.  MODE: fixed code — /repo with the `fix:` commits d0e6145
+  (OpenMP close nesting), 053c279 (OpenACC nesting), 26670ce (rectangular collapse), f63f3e2 (no
+  OpenMP/OpenACC mixing), 3023462 (teams / simd regions), b01d4e9 (acc routine / update / enter data
+  placement).  The one remaining known finding (`nowait` printed on `!$omp single`) is excluded by
+  the explicit side condition of `C10_writer_guards_partial`; `C10_writer_guards` has no exclusions.
 * `guardedValid` / `specValid` are the OpenMP 4.5/5.0 and OpenACC 2.6 nesting, loop-association,
   rectangularity and no-mixing rules (each clause cites its source in the model file).
 * `applyOp` / `Reachable` model the SHAPE of the directive-inserting transformations.
